@@ -107,36 +107,12 @@ func c01(c *q.Ctx) {
 	feeInverse(c)
 	feeEveryTx(c)
 	xmodelDoUndo(c)
+	metaKeysAgree(c)
+	allK9Operations(c, ledgerK9(c))
 	poolGraph(c)
 	poolRollback(c)
 
-	// ---- block-level operations: one batch per block that also moves the pointer
-	ub := c.Fn(st + "(*State).procUndoBlkForWalk")
-	if ub != nil {
-		bvub := c.SameValueArgs(ub, map[string]int{"State.undoTxInternal": 2, "State.undoPayFee": 2, "Meta.UpdateNextIrreversibleBlockHeightForPrune": 4, "State.updateLatestBlockid": 2}, "one batch per undone block, shared by every step and by the pointer update", "undo of a block is atomic")
-		c.NoUseAfter(ub, bvub, "State.updateLatestBlockid", "updateLatestBlockid writes the batch; a step staged afterwards is never persisted")
-		c.ArgIs(ub, "State.updateLatestBlockid", 1, "p1[].PreHash", 1, "after undoing a block the pointer names its parent")
-		c.ArgIs(ub, "State.undoTxInternal", 1, "p1[].Transactions[#down]", 1, "transactions of a block are undone newest first")
-		c.ArgIs(ub, "State.undoPayFee", 1, "p1[].Transactions[#down]", 1, "fees are undone for the same transaction")
-		c.ArgIs(ub, "State.undoPayFee", 3, "p1[]", 1, "fee owner is the undone block's proposer")
-		c.Gate(ub, "State.undoTxInternal", q.ToSuccess(), q.Opt{K1Only: true})
-		c.Gate(ub, "State.undoPayFee", q.ToSuccess(), q.Opt{K1Only: true})
-		c.Gate(ub, "State.updateLatestBlockid", q.ToSuccess(), q.Opt{K1Only: true})
-		// a transaction is skipped only when the pool rollback already undid it
-		c.OnlyUnder(ub, q.ToCall("State.undoTxInternal"), []q.Cond{{Canon: "p2[p1[].Transactions[#down].Txid]", Sense: false}}, "skipped only if already undone with the pool")
-	}
-	tb := c.Fn(st + "(*State).procTodoBlkForWalk")
-	if tb != nil {
-		bvtb := c.SameValueArgs(tb, map[string]int{"State.doTxInternal": 2, "State.payFee": 2, "Meta.UpdateNextIrreversibleBlockHeight": 4, "State.updateLatestBlockid": 2}, "one batch per replayed block, shared by every step and by the pointer update", "play of a block is atomic")
-		c.NoUseAfter(tb, bvtb, "State.updateLatestBlockid", "updateLatestBlockid writes the batch; a step staged afterwards is never persisted")
-		c.ArgIs(tb, "State.updateLatestBlockid", 1, "p1[#down].Blockid", 1, "the todo list is tip-first: blocks are replayed oldest first and the pointer names the block just played")
-		c.ArgIs(tb, "State.doTxInternal", 1, "p1[#down].Transactions[]", 1, "every transaction of the block, in block order")
-		c.ArgIs(tb, "State.payFee", 1, "p1[#down].Transactions[]", 1, "fee for the same transaction")
-		c.ArgIs(tb, "State.payFee", 3, "p1[#down]", 1, "fee owner is the played block's proposer")
-		c.Gate(tb, "State.doTxInternal", q.ToCall("State.updateLatestBlockid"), q.Opt{K1Only: true})
-		c.Gate(tb, "State.payFee", q.ToCall("State.updateLatestBlockid"), q.Opt{K1Only: true})
-		c.Gate(tb, "State.updateLatestBlockid", q.ToSuccess(), q.Opt{K1Only: true})
-	}
+	walkStepOrder(c)
 	pr := c.Fn(st + "(*State).PlayAndRepost")
 	if pr != nil {
 		bvpr := c.SameValueArgs(pr, map[string]int{"State.processUnconfirmTxs": 2, "State.doTxInternal": 2, "State.payFee": 2, "Meta.UpdateNextIrreversibleBlockHeight": 4, "State.updateLatestBlockid": 2}, "one batch per played block", "play of a block is atomic")
@@ -244,4 +220,38 @@ func feeInverse(c *q.Ctx) {
 		c.StoreIs(pf, "UtxoItem.Amount", "big.NewInt(0){SetBytes(p1.TxOutputs[].Amount)}", 1, "fee output amount is the placeholder output's amount")
 	}
 
+}
+
+// walkStepOrder (C01, C03, C02): the two halves of Walk - a block is undone newest transaction first and replayed in
+// block order, each with its fee, into one batch that also carries the pointer (an undo in block order re-creates the
+// outputs of a transaction whose in-block spender is undone after it).
+func walkStepOrder(c *q.Ctx) {
+	const st = "bcs/ledger/xledger/state::"
+	// ---- block-level operations: one batch per block that also moves the pointer
+	ub := c.Fn(st + "(*State).procUndoBlkForWalk")
+	if ub != nil {
+		bvub := c.SameValueArgs(ub, map[string]int{"State.undoTxInternal": 2, "State.undoPayFee": 2, "Meta.UpdateNextIrreversibleBlockHeightForPrune": 4, "State.updateLatestBlockid": 2}, "one batch per undone block, shared by every step and by the pointer update", "undo of a block is atomic")
+		c.NoUseAfter(ub, bvub, "State.updateLatestBlockid", "updateLatestBlockid writes the batch; a step staged afterwards is never persisted")
+		c.ArgIs(ub, "State.updateLatestBlockid", 1, "p1[].PreHash", 1, "after undoing a block the pointer names its parent")
+		c.ArgIs(ub, "State.undoTxInternal", 1, "p1[].Transactions[#down]", 1, "transactions of a block are undone newest first")
+		c.ArgIs(ub, "State.undoPayFee", 1, "p1[].Transactions[#down]", 1, "fees are undone for the same transaction")
+		c.ArgIs(ub, "State.undoPayFee", 3, "p1[]", 1, "fee owner is the undone block's proposer")
+		c.Gate(ub, "State.undoTxInternal", q.ToSuccess(), q.Opt{K1Only: true})
+		c.Gate(ub, "State.undoPayFee", q.ToSuccess(), q.Opt{K1Only: true})
+		c.Gate(ub, "State.updateLatestBlockid", q.ToSuccess(), q.Opt{K1Only: true})
+		// a transaction is skipped only when the pool rollback already undid it
+		c.OnlyUnder(ub, q.ToCall("State.undoTxInternal"), []q.Cond{{Canon: "p2[p1[].Transactions[#down].Txid]", Sense: false}}, "skipped only if already undone with the pool")
+	}
+	tb := c.Fn(st + "(*State).procTodoBlkForWalk")
+	if tb != nil {
+		bvtb := c.SameValueArgs(tb, map[string]int{"State.doTxInternal": 2, "State.payFee": 2, "Meta.UpdateNextIrreversibleBlockHeight": 4, "State.updateLatestBlockid": 2}, "one batch per replayed block, shared by every step and by the pointer update", "play of a block is atomic")
+		c.NoUseAfter(tb, bvtb, "State.updateLatestBlockid", "updateLatestBlockid writes the batch; a step staged afterwards is never persisted")
+		c.ArgIs(tb, "State.updateLatestBlockid", 1, "p1[#down].Blockid", 1, "the todo list is tip-first: blocks are replayed oldest first and the pointer names the block just played")
+		c.ArgIs(tb, "State.doTxInternal", 1, "p1[#down].Transactions[]", 1, "every transaction of the block, in block order")
+		c.ArgIs(tb, "State.payFee", 1, "p1[#down].Transactions[]", 1, "fee for the same transaction")
+		c.ArgIs(tb, "State.payFee", 3, "p1[#down]", 1, "fee owner is the played block's proposer")
+		c.Gate(tb, "State.doTxInternal", q.ToCall("State.updateLatestBlockid"), q.Opt{K1Only: true})
+		c.Gate(tb, "State.payFee", q.ToCall("State.updateLatestBlockid"), q.Opt{K1Only: true})
+		c.Gate(tb, "State.updateLatestBlockid", q.ToSuccess(), q.Opt{K1Only: true})
+	}
 }
